@@ -15,8 +15,6 @@ import (
 	"strings"
 
 	"golang.org/x/tools/go/callgraph"
-	"golang.org/x/tools/go/callgraph/cha"
-	"golang.org/x/tools/go/callgraph/vta"
 	"golang.org/x/tools/go/packages"
 	"golang.org/x/tools/go/ssa"
 	"golang.org/x/tools/go/ssa/ssautil"
@@ -218,18 +216,6 @@ func (p *Prog) DeclPkg(f *types.Func) *packages.Package {
 	return p.declPkg[f.Origin()]
 }
 
-// PkgOfPos returns the repo package whose syntax contains pos.
-func (p *Prog) PkgOfPos(pos token.Pos) *packages.Package {
-	for _, pk := range p.Repo {
-		for _, f := range pk.Syntax {
-			if f.Pos() <= pos && pos <= f.End() {
-				return pk
-			}
-		}
-	}
-	return nil
-}
-
 // SSAFunc returns the SSA function for a types.Func.
 func (p *Prog) SSAFunc(f *types.Func) *ssa.Function {
 	if p.SSA == nil || f == nil {
@@ -288,71 +274,4 @@ func (p *Prog) RepoFuncs() []*types.Func {
 	}
 	sort.Slice(fs, func(i, j int) bool { return p.decls[fs[i]].Pos() < p.decls[fs[j]].Pos() })
 	return fs
-}
-
-// IsRepoPkg reports whether a types.Package belongs to the in-scope repo.
-func (p *Prog) IsRepoPkg(pkg *types.Package) bool {
-	if pkg == nil {
-		return false
-	}
-	for _, pk := range p.Repo {
-		if pk.Types == pkg {
-			return true
-		}
-	}
-	return false
-}
-
-// CallGraph returns CHA (quick) or VTA-refined (thorough) call graph.
-func (p *Prog) CallGraph(thorough bool) *callgraph.Graph {
-	if p.cgCHA == nil {
-		p.cgCHA = cha.CallGraph(p.SSA)
-	}
-	if !thorough {
-		return p.cgCHA
-	}
-	if p.cgVTA == nil {
-		p.cgVTA = vta.CallGraph(ssautil.AllFunctions(p.SSA), p.cgCHA)
-	}
-	return p.cgVTA
-}
-
-// ReachableRepoFuncs returns the repo SSA functions reachable from roots
-// (including anonymous functions nested in reachable ones).
-func (p *Prog) ReachableRepoFuncs(roots []*ssa.Function, thorough bool) map[*ssa.Function]bool {
-	cg := p.CallGraph(thorough)
-	seen := map[*ssa.Function]bool{}
-	var visit func(f *ssa.Function)
-	visit = func(f *ssa.Function) {
-		if f == nil || seen[f] {
-			return
-		}
-		seen[f] = true
-		for _, an := range f.AnonFuncs {
-			visit(an)
-		}
-		if n := cg.Nodes[f]; n != nil {
-			for _, e := range n.Out {
-				visit(e.Callee.Func)
-			}
-		}
-	}
-	for _, r := range roots {
-		visit(r)
-	}
-	out := map[*ssa.Function]bool{}
-	for f := range seen {
-		if f.Pkg != nil && p.IsRepoPkg(f.Pkg.Pkg) {
-			out[f] = true
-		} else if f.Parent() != nil {
-			q := f
-			for q.Parent() != nil {
-				q = q.Parent()
-			}
-			if q.Pkg != nil && p.IsRepoPkg(q.Pkg.Pkg) {
-				out[f] = true
-			}
-		}
-	}
-	return out
 }
